@@ -11,7 +11,7 @@ import re
 from gen import irgen
 from vlib import core, passlib
 
-COQ_TARGETS = ["Props/C05.vo", "Model/Spec05.vo", "Model/SpecChain.vo"]
+COQ_TARGETS = ["Props/C05.vo", "Model/Spec05.vo", "Model/SpecChain.vo", "Gen/Chains_gen.vo"]
 PROPS = "Props/C05.v"
 TRUSTED = [
     "reference sites enumerated by coq/Model/Refs.v (refs, constant refs, map index types, enum member types, struct-hint disjunctions, discriminator mapping targets, entry points)",
@@ -89,6 +89,12 @@ def dangling_of(ctx, tag, outcome_term):
     rc, out = core.coqc_file(path)
     flat = re.sub(r"\s+", " ", out)
     return re.findall(r'\("([^"]*)", "([^"]*)"\)', flat.split(" : list", 1)[0])
+
+
+def regen(ctx):
+    """Props/C05.v states theorems about the regenerated language chains (Gen/Chains_gen.v)"""
+    from checks import c06
+    c06.regen(ctx)
 
 
 def run(ctx, verdict, replay=None, model_ok=True):
